@@ -16,7 +16,7 @@ HDR = "x-goog-request-params"
 
 PROFILE = grammar.profile(
     p_routing=0.55, p_http=0.85, p_get=0.9, p_list=0.6, p_update=0.6, p_delete=0.6, p_custom=0.7, p_create=0.5,
-    p_sstream=0.35, p_cstream=0.0, p_bidi=0.0, p_lro=0.4, p_raw_op=0.1, p_service_config=0.8, p_yaml=0.05,
+    p_sstream=0.35, p_cstream=0.3, p_stream_routing=0.8, p_routing_name_clash=0.25, p_bidi=0.0, p_lro=0.4, p_raw_op=0.1, p_service_config=0.8, p_yaml=0.05,
     transports=["grpc", "grpc+rest", "grpc+rest"], p_additional_binding=0.4, p_multi_var_path=0.4, p_reserved_path_var=0.5, p_custom_http_pattern=0.3, p_double_star_path=0.25)
 
 BUDGET = {
@@ -26,7 +26,7 @@ BUDGET = {
 REQUIRED_PROBES = ["explicit_rule", "implicit_rule", "no_header_expected", "override_same_key", "nested_field",
                    "value_needs_escaping", "non_matching_value", "empty_value", "header_on_retry_attempt",
                    "header_on_later_page", "async_header", "extra_trailing_segments", "no_template_param", "rest_header", "rest_header_on_later_page", "header_on_lro",
-                   "header_on_sstream", "shared_metadata_list_later_call", "custom_http_pattern", "header_on_fetch_after_resume", "rest_connection_error_surfaced"]
+                   "header_on_sstream", "shared_metadata_list_later_call", "custom_http_pattern", "header_on_fetch_after_resume", "rest_connection_error_surfaced", "client_streaming_with_routing_annotation"]
 SEGS = ["p1", "my-proj", "a b", "é", "x%y", "k=v&z", "seg.1", "~t", "q+r", "UPPER"]
 
 
@@ -180,7 +180,11 @@ def candidates(spec):
     out = []
     for fs, s, m in grammar.all_methods(spec):
         if m.get("client_streaming"):
-            continue          # (the emitted code sends no routing values for client-streaming calls: no single request exists)
+            # no single request exists when a client-streaming call starts: with a routing ANNOTATION nothing matches and
+            # no header may be sent; without one the property is silent (the pinned tree sends an empty header)
+            if m.get("routing") and not m.get("server_streaming"):
+                out.append((fs, s, m, "cstream"))
+            continue
         if find_message(spec, m["input"]) is None:
             continue
         out.append((fs, s, m, c07.classify(spec, m) if not m.get("server_streaming") else None))
@@ -212,7 +216,7 @@ def gen_scenarios(spec, rng, n):
             if prev and rng.random() < 0.25:
                 fs, s, m, cls = prev           # the same RPC again on the same client (state carried between calls)
             prev = (fs, s, m, cls)
-            if client == "rest" and (not m.get("http") or m["http"]["verb"] == "custom"):
+            if client == "rest" and (not m.get("http") or m["http"]["verb"] == "custom" or cls == "cstream"):
                 continue
             actors[j % nact]["ops"].append(gen_op(spec, rng, codec, fs, s, m, cls, f"o{j}", client))
         actors = [a for a in actors if a["ops"]]
@@ -231,6 +235,11 @@ def gen_scenarios(spec, rng, n):
 
 
 def gen_op(spec, rng, codec, fs, s, m, cls, oid, client):
+    if cls == "cstream":
+        from .c03 import tagged
+        return {"id": oid, "kind": "cstream", "service": s["name"], "method": m["name"], "call": {}, "form": "msg",
+                "requests": [tagged(rng, codec, m["input"], f"req-{oid}-{i}") for i in range(rng.randint(1, 3))],
+                "server": [{"reply": {}}]}
     if cls is not None:
         op = c07.gen_op(spec, rng, codec, fs, s, m, cls, oid, client)
         op.pop("nested", None)
@@ -363,9 +372,15 @@ def judge(spec, scenario, history):
         path = f"/{fs['package']}.{s['name']}/{m['name']}"
         if e.get("tr") == "grpc" and e["path"] != path:
             continue
+        hdrs = [v for k, v in e["md"] if k.lower() == HDR]
+        if op["kind"] == "cstream":
+            _bump(probes, "client_streaming_with_routing_annotation")
+            if hdrs:
+                return [{"rule": "routing_header", "op": op["id"], "method": path, "msg": f"client-streaming call with a routing annotation carried "
+                         f"x-goog-request-params={hdrs}: nothing can match before a request exists, so no header may be sent"}], probes
+            continue
         val = oracle.request_valuation(op)
         want = expected_params(spec, m, val)
-        hdrs = [v for k, v in e["md"] if k.lower() == HDR]
 
         def V(rule, msg):
             return [{"rule": rule, "op": op["id"], "method": path, "msg": msg}], probes
@@ -423,6 +438,9 @@ def judge(spec, scenario, history):
             if op["kind"] == "paged" and e["n"] > 1:
                 _bump(probes, "rest_header_on_later_page")
         # verdict
+        if m.get("routing") and not want and hdrs:
+            return V("routing_header", f"attempt {e['n']} ({scenario['client']}) carried x-goog-request-params={hdrs!r} although no routing "
+                     f"parameter matches: with a routing annotation NO header is sent when nothing matches (an empty one is still a header)")
         if got != want:
             return V("routing_header", f"attempt {e['n']} ({scenario['client']}) carried x-goog-request-params={raw!r} -> {got}; "
                      f"AIP-4222 prescribes {want} for request {str(val)[:200]}")
